@@ -27,7 +27,7 @@ MANIFEST = dict(
     text="Generated search (hundreds of thousands of strings x 13 target types x bound typings x bases x trailing flag) against an "
          "independent reference of the strto* grammar with exact arithmetic; every disagreement in acceptance, errno or value is a "
          "violation. Exploration is the right level: the input space is unbounded text, the oracle is exact, and boundary classes "
-         "(type limits +-2, bounds +-2, negative numerals into unsigned targets, overflow near 2^64/1000^k) are generated deliberately.",
+         "(type limits +-2, bounds +-2, negative numerals into unsigned targets, overflow near 2^64/1000^k) are generated deliberately. Floating-point numerals include exact expansions of rounding midpoints (on, just above, just below) for both float and double targets.",
     note="Trusted: clang 14 + ASan/UBSan, rapidcheck, GMP, libstdc++ std::from_chars (rounding), the reference grammar in props/C16/core.cpp. "
          "Signed targets only get bounds inside the target type; floats stay in the target's normal range (both from the property's quantifier).",
 )
